@@ -690,8 +690,8 @@ func (cl *cluster) enabled() []string {
 					out = append(out, fmt.Sprintf("Resize:grow:%d", m))
 				}
 			}
-		case "Tick", "TickF":
-			if cl.nTicks >= 3 || (t == "TickF" && !faultsLeft(1)) {
+		case "Tick", "TickF", "TickK":
+			if cl.nTicks >= 3 || (t != "Tick" && !faultsLeft(1)) {
 				continue
 			}
 			var ns []int
